@@ -1,0 +1,16 @@
+//go:build verif
+
+// Contracts for govc (contract-based deductive verification, see /verif/DESIGN.md).
+// Comment-only file: it adds no code and is compiled only with -tags verif.
+
+package shared
+
+// Contract of every pipeline stage: no precondition on the request parameters
+// (a stage that needs a positive step or range must check it itself); a stage
+// may move the window bounds outwards (range bucketing does) but never touches
+// the step. Implementations that are not under contract themselves are assumed
+// to honour it (listed in the evidence).
+//@ iface (RequestProcessor).Process(ctx, in) [C12]
+//@   modifies fields(ctx)
+//@   ensures ctx.Step == old(ctx.Step)
+//@   ensures result1 == nil ==> ctx.From.UnixNano() <= old(ctx.From.UnixNano()) && ctx.To.UnixNano() >= old(ctx.To.UnixNano())
